@@ -71,4 +71,12 @@ theorem Cfg.defaults_setDefault_mem (c : Cfg) (k : String) (s : Slot) : k ∈ (c
 @[simp] theorem Cfg.get_withDefaults (c : Cfg) (d : List String) (k : String) : (c.withDefaults d).get k = c.get k := by
   cases c; rfl
 
+theorem partitionDot_append : ∀ (k rest : List Char), '.' ∉ k → partitionDot (k ++ '.' :: rest) = (k, some rest)
+  | [], rest, _ => by simp [partitionDot]
+  | x :: xs, rest, h => by
+    have hx : (x == '.') = false := by
+      simp only [beq_eq_false_iff_ne, ne_eq]; intro e; subst e; exact h (by simp)
+    have ih := partitionDot_append xs rest (fun hm => h (by simp [hm]))
+    simp [partitionDot, hx, ih]
+
 end Cinco.Config
